@@ -163,6 +163,9 @@ def run(ck):
     import c04
     with ck.under("C04-", "C10-C04"):
         c04.rule_X(ck, lib)
+    # no message is lost between reads (it could then never be answered): the buffer discipline of process (K-rules of C07)
+    import c07
+    c07.rule_K(ck, lib, "C10-K")
 
 def response_typestate(ck, exits, res_id, rid):
     """T4: typestate of the response buffer along every path segment."""
